@@ -55,6 +55,9 @@ def run(ck: Checker, prog: Program, tier: str):
         ck.guard(c04._orientation_carried, ck, prog)
     with ck.borrow(c15, "C10.R1+"):
         ck.guard(c15.check_constructors, ck, prog, [prog.cls(cname) for cname in ("Settings", "PreProcessingSettings", "HvsrPreProcessingSettings", "PsdPreProcessingSettings")])
+    # k is computed from the series' own time step: the constructor keeps the time step it is given (a rounded step changes k at 150 / 300 Hz)
+    from .c15 import check_stored_as_given
+    ck.guard(check_stored_as_given, ck, prog, "C10.R4", ["TimeSeries"], ("dt_in_seconds",), "the number of whole intervals per window is computed from another time step than the record's")
     from .common import check_identity_comparisons as _cic
     ck.guard(_cic, ck, prog, "C10.R1", "C10")
 
